@@ -5,7 +5,7 @@
     is reachable from the empty storage by a fault-free history of obtain / renew / manage /
     revocation (by the CA, or RevokeCert) steps for the subject, with arbitrary issuer answers". *)
 From Coq Require Import List NArith ZArith Bool.
-From CM Require Import Bundle.Model Bundle.Proofs Bundle.Recency Bundle.Faults Bundle.Check Bundle.Sound6 Gen.Consts.
+From CM Require Import Bundle.Model Bundle.Proofs Bundle.Recency Bundle.Faults Bundle.ErrSucc Bundle.Check Bundle.Sound6 Gen.Consts.
 Import ListNotations.
 Open Scope N_scope.
 
@@ -19,6 +19,23 @@ Theorem C06_success_bundle_complete : forall cfg sp c orc h r c',
                 c_pub x = k /\ c_sub x = s_id sp.
 Proof. exact m_success_bundle_complete. Qed.
 Print Assumptions C06_success_bundle_complete.
+
+(** the first clause under storage faults: whatever Storage calls fail (ANY plan: arbitrary set of
+    failing call indices; a call that returned has not died), an obtain / renew / manage that REPORTS
+    SUCCESS has left a complete, matching bundle for the subject in some configured issuer's directory.
+    ([save] returns Ok only when all three Stores succeeded; reads never lie: a failing read is an error
+    or, for Exists, "absent". No revocation pending: forceRenew's retry loop is outside the model.)
+    This is the statement the check's monitor enforces on steps with injected storage errors. *)
+Theorem C06_success_bundle_complete_under_faults : forall pl cfg sp orc h w r,
+  reach6 cfg sp (w_core w) -> k_ocsp (w_core w) = [] -> canonical sp -> oracle_ok cfg orc -> is_op h = true ->
+  fst (run_hop pl cfg sp orc h w) = Ok r ->
+  exists i, In i (issuers cfg) /\
+    exists k x m, bundle_at (w_st (snd (run_hop pl cfg sp orc h w))) i (s_save sp) = Some (i, k, x, m) /\
+                  c_pub x = k /\ c_sub x = s_id sp.
+Proof.
+  intros pl cfg sp orc h w r HR. apply success_bundle_complete_under_faults. apply reach6_inv, HR.
+Qed.
+Print Assumptions C06_success_bundle_complete_under_faults.
 
 (** saving a bundle and loading that issuer's bundle back yields exactly what was saved *)
 Theorem C06_load_roundtrip : forall c i d k x m,
@@ -300,3 +317,13 @@ Example C06_reuse_obtain_hypotheses_met :
   let a := snd (run_hop_pure cfg w6_sp (Oracle [None; w6_up 10] []) HObtain empty_core) in
   first_key_i (k_st a) (issuers cfg) (s_pre w6_sp) = Some (1%nat, 0) /\ reuse cfg = true.
 Proof. vm_compute. split; reflexivity. Qed.
+
+(** a faulted run that still reports success: the first Exists of the pre-check fails (answers "absent"),
+    the obtain goes on and stores the bundle; and one that reports the error: the Store of the .crt fails *)
+Example C06_faulted_success_and_faulted_error :
+  let orc := Oracle [w6_up 10] [] in let cfg := Config 1 false false in
+  fst (run_hop (single_error 0) cfg w6_sp orc HObtain empty_world) = Ok None /\
+  length (w_st (snd (run_hop (single_error 0) cfg w6_sp orc HObtain empty_world))) = 3%nat /\
+  fst (run_hop (single_error 8) cfg w6_sp orc HObtain empty_world) = Fail EInjected /\
+  w_st (snd (run_hop (single_error 8) cfg w6_sp orc HObtain empty_world)) = [].
+Proof. vm_compute. repeat split. Qed.
